@@ -55,6 +55,27 @@ def make_cases(chk, rng):
             h.update(rng.randrange(256), rng.random() < 0.6, dump=False)
             h.solve()
         cases.append(h.case(kind="updated"))
+    # rows of G disabled by an infinite h, re-enabled together with G, then G passed alone: the certificate must be for the
+    # problem the user now poses (all rows active)
+    for i in range(100 if thorough else 15):
+        be = rng.randrange(5)
+        st = gen_sol.rand_settings(rng, max_iter=1)
+        st["eps_abs"] = rng.choice([F(1, 4), F(8), F(2 ** 10)])
+        h = gen_sol.Hist(rng, f"hr{i}", be, rng.choice([0, 1]), st, dims=(rng.choice([2, 3]), rng.choice([0, 1]), 2))
+        pr = h.prob
+        keep = [x if not isinstance(x, str) else F(1) for x in pr.h]
+        pr.h = ["inf"] + keep[1:]
+        h.setup(dump=False)
+        if rng.random() < 0.5:
+            h.solve()
+        pr.h = list(keep)
+        pr.G = gen_sol.rnd_mat(rng, pr.m, pr.n, pr.maskG)
+        h.raw("sol.sqrtmode -1", "").raw("sol.update 1 " + pr.mat_arg("G", pr.G, pr.maskG, pr.m, pr.n, h.sparse) + " " + pr.vec_arg("h", pr.h),
+                                       "update(G,h->finite)")
+        pr.G = gen_sol.rnd_mat(rng, pr.m, pr.n, pr.maskG)
+        h.raw("sol.sqrtmode -1", "").raw("sol.update 1 " + pr.mat_arg("G", pr.G, pr.maskG, pr.m, pr.n, h.sparse), "update(G)")
+        h.solve()
+        cases.append(h.case(kind="h-row-reenabled"))
     return cases
 
 
